@@ -41,16 +41,16 @@ func (d *device) Input(c *devsim.Conn, b []byte) {
 }
 
 // call invokes the public method a request names.
-func call(d *netconf.Driver, q Req) (*response.NetconfResponse, error) {
+func call(d *netconf.Driver, q Req, extra []util.Option) (*response.NetconfResponse, error) {
 	arg := q.Arg.Str()
-	var o []util.Option
+	o := append([]util.Option(nil), extra...)
 	switch q.Shape {
 	case "get":
-		return d.Get("")
+		return d.Get("", o...)
 	case "get-subtree":
-		return d.Get(arg)
+		return d.Get(arg, o...)
 	case "get-xpath":
-		return d.Get(arg, opoptions.WithFilterType("xpath"))
+		return d.Get(arg, append(o, opoptions.WithFilterType("xpath"))...)
 	case "get-config", "get-config-subtree", "get-config-xpath":
 		if q.Shape != "get-config" {
 			o = append(o, opoptions.WithFilter(arg))
@@ -77,7 +77,7 @@ func call(d *netconf.Driver, q Req) (*response.NetconfResponse, error) {
 	case "discard":
 		return d.Discard()
 	case "rpc":
-		return d.RPC(opoptions.WithFilter(arg))
+		return d.RPC(append(o, opoptions.WithFilter(arg))...)
 	}
 	// commit variants
 	if q.Confirmed {
@@ -94,6 +94,9 @@ func call(d *netconf.Driver, q Req) (*response.NetconfResponse, error) {
 	}
 	return d.Commit(o...)
 }
+
+// plannedTimeout is the operation timeout of a request the server is told not to answer.
+const plannedTimeout = 200 * time.Millisecond
 
 type sessionOut struct {
 	inputs [][]byte
@@ -124,6 +127,9 @@ func runSession(s Session, force, header bool) (*sessionOut, *mon.Result) {
 			return
 		}
 		dev.lastID = m.ID
+		if k := m.Index - 1; k < len(s.Reqs) && s.Reqs[k].NoAnswer != "" {
+			return // planned: no answer (or a late one, sent by the harness after the call returned)
+		}
 		sv.Send(c, ncsim.Reply(m.ID, "<ok/>"), nil)
 	}
 	conn := devsim.NewConn(dev, devsim.Config{Seg: s.Seg})
@@ -169,7 +175,18 @@ func runSession(s Session, force, header bool) (*sessionOut, *mon.Result) {
 	for i, q := range s.Reqs {
 		var wireBefore, msgsBefore int
 		conn.Do(func() { wireBefore, msgsBefore = len(srv.Wire), len(srv.Msgs) })
-		r, err := call(d, q)
+		planned := q.NoAnswer != ""
+		var extra []util.Option
+		savedTO := d.Channel.TimeoutOps
+		if planned {
+			if q.TimeoutVia == "op" {
+				extra = append(extra, opoptions.WithTimeoutOps(plannedTimeout))
+			} else {
+				d.Channel.TimeoutOps = plannedTimeout
+			}
+		}
+		r, err := call(d, q, extra)
+		d.Channel.TimeoutOps = savedTO
 		var msgs []*ncsim.Msg
 		var protoErr string
 		var leftover, tail []byte
@@ -186,6 +203,10 @@ func runSession(s Session, force, header bool) (*sessionOut, *mon.Result) {
 		if protoErr != "" {
 			return nil, viol(bad("c03/wire-undecodable:"+s.Version, "the strict decoder rejects the client's byte stream: %s", protoErr), i, q, srv)
 		}
+		plannedTimeoutHit := planned && err != nil && errors.Is(err, util.ErrTimeoutError)
+		if planned && err == nil {
+			return nil, &mon.Result{Verdict: mon.Inconclusive, Detail: "the server did not answer, yet the call returned a response (not this property: C08)"}
+		}
 		if err != nil {
 			switch {
 			case wireNow == wireBefore:
@@ -193,36 +214,42 @@ func runSession(s Session, force, header bool) (*sessionOut, *mon.Result) {
 			case len(msgs) == msgsBefore:
 				return nil, viol(bad("c03/incomplete-message:"+s.Version,
 					"call returned %v; the client wrote %d bytes which are not a complete %s message: tail %s", err, wireNow-wireBefore, wantFraming, around(leftover, len(leftover))), i, q, srv)
-			case errors.Is(err, util.ErrTimeoutError):
-				return nil, &mon.Result{Verdict: mon.Inconclusive, Detail: "request decoded and answered, call timed out (load / not this property)"}
-			default:
-				return nil, viol(bad("c03/call-error:"+opOf(q.Shape), "call returned %v", err), i, q, srv)
 			}
+			// a complete message was decoded: it is judged below from the server's side, whatever the call returned
 		}
 		if len(msgs) != msgsBefore+1 {
 			return nil, viol(bad("c03/message-count", "one call put %d messages on the wire", len(msgs)-msgsBefore), i, q, srv)
 		}
 		m := msgs[len(msgs)-1]
-		// 1. what the server decoded is what the response reports
-		if !bytes.Equal(m.Payload, r.Input) {
-			dd := firstDiff(m.Payload, r.Input)
-			return nil, viol(bad("c03/input-differs-from-wire", "decoded payload (%d bytes) != Input (%d bytes) at offset %d: wire %s, Input %s",
-				len(m.Payload), len(r.Input), dd, around(m.Payload, dd), around(r.Input, dd)), i, q, srv)
+		input := m.Payload
+		chunks := 1
+		if r != nil {
+			input = r.Input
+			// 1. what the server decoded is what the response reports
+			if !bytes.Equal(m.Payload, r.Input) {
+				dd := firstDiff(m.Payload, r.Input)
+				return nil, viol(bad("c03/input-differs-from-wire", "decoded payload (%d bytes) != Input (%d bytes) at offset %d: wire %s, Input %s",
+					len(m.Payload), len(r.Input), dd, around(m.Payload, dd), around(r.Input, dd)), i, q, srv)
+			}
+			// 2. FramedInput is one exact frame of Input ...
+			var c *complaint
+			chunks, c = checkFrame(s.Version, r.Input, r.FramedInput)
+			if c != nil {
+				return nil, viol(c, i, q, srv)
+			}
+			// 3. ... and exactly the wire slice that carried it, with exactly the documented returns around it
+			wantRaw := r.FramedInput
+			if s.Version == "1.1" {
+				wantRaw = append(append([]byte("\n"), r.FramedInput...), '\n')
+			}
+			if !bytes.Equal(m.Raw, wantRaw) {
+				dd := firstDiff(m.Raw, wantRaw)
+				return nil, viol(bad("c03/framed-input-not-wire-slice:"+s.Version, "wire bytes of the message (%s, %d bytes) differ from FramedInput (+returns) at offset %d: wire %s, FramedInput %s",
+					m.Framing, len(m.Raw), dd, around(m.Raw, dd), around(wantRaw, dd)), i, q, srv)
+			}
 		}
-		// 2. FramedInput is one exact frame of Input ...
-		chunks, c := checkFrame(s.Version, r.Input, r.FramedInput)
-		if c != nil {
-			return nil, viol(c, i, q, srv)
-		}
-		// 3. ... and exactly the wire slice that carried it, with exactly the documented returns around it
-		wantRaw := r.FramedInput
-		if s.Version == "1.1" {
-			wantRaw = append(append([]byte("\n"), r.FramedInput...), '\n')
-		}
-		if m.Framing != wantFraming || !bytes.Equal(m.Raw, wantRaw) {
-			dd := firstDiff(m.Raw, wantRaw)
-			return nil, viol(bad("c03/framed-input-not-wire-slice:"+s.Version, "wire bytes of the message (%s, %d bytes) differ from FramedInput (+returns) at offset %d: wire %s, FramedInput %s",
-				m.Framing, len(m.Raw), dd, around(m.Raw, dd), around(wantRaw, dd)), i, q, srv)
+		if m.Framing != wantFraming {
+			return nil, viol(bad("c03/framed-input-not-wire-slice:"+s.Version, "message arrived in %s framing, want %s", m.Framing, wantFraming), i, q, srv)
 		}
 		if string(m.PreGap) != wantGap {
 			return nil, viol(bad("c03/separator:"+s.Version, "bytes between the previous message and this one are %q, want %q", m.PreGap, wantGap), i, q, srv)
@@ -231,8 +258,8 @@ func runSession(s Session, force, header bool) (*sessionOut, *mon.Result) {
 		if string(tail) != "\n" {
 			return nil, viol(bad("c03/separator:"+s.Version, "after the message the client wrote %s, want exactly one more return", clip(tail)), i, q, srv)
 		}
-		// 4. the XML
-		id, c := checkStructure(r.Input, q, header, force)
+		// 4. the XML (of Input, or of what the server decoded when the call has no response to show)
+		id, c := checkStructure(input, q, header, force)
 		if c != nil && !(force && c.key == "c03/self-closing-rewrite:not-well-formed") {
 			return nil, viol(c, i, q, srv)
 		}
@@ -246,8 +273,25 @@ func runSession(s Session, force, header bool) (*sessionOut, *mon.Result) {
 		if prevID != 0 && id <= prevID {
 			return nil, viol(bad("c03/xml:message-id:not-increasing", "message-id %d after %d", id, prevID), i, q, srv)
 		}
+		if err != nil && !plannedTimeoutHit {
+			if errors.Is(err, util.ErrTimeoutError) {
+				return nil, &mon.Result{Verdict: mon.Inconclusive, Detail: "request decoded (well-formed, complete) and answered, call timed out (load / not this property)"}
+			}
+			return nil, viol(bad("c03/call-error:"+opOf(q.Shape), "call returned %v", err), i, q, srv)
+		}
+		if planned {
+			out.obs["planned_timeouts_"+q.NoAnswer]++
+			out.tags["timeout_via="+q.TimeoutVia] = true
+			if i+1 < len(s.Reqs) {
+				out.obs["requests_after_a_failed_request"] += int64(len(s.Reqs) - i - 1)
+			}
+			if q.NoAnswer == "late" {
+				conn.Do(func() { srv.Send(conn, ncsim.Reply(m.ID, "<ok/>"), nil) })
+			}
+		}
+		inputLen := len(input)
 		prevID = id
-		out.inputs = append(out.inputs, r.Input)
+		out.inputs = append(out.inputs, input)
 		out.ids = append(out.ids, id)
 		// observations
 		out.obs["requests"]++
@@ -257,19 +301,19 @@ func runSession(s Session, force, header bool) (*sessionOut, *mon.Result) {
 			out.obs["requests_with_multibyte_argument"]++
 		}
 		if s.Version == "1.1" {
-			dg := len(strconv.Itoa(len(r.Input)))
+			dg := len(strconv.Itoa(inputLen))
 			out.tags[fmt.Sprintf("chunk_size_digits=%d", dg)] = true
 			if chunks == 1 {
 				out.obs["single_chunk_frames"]++
 			} else {
 				out.obs["multi_chunk_frames"]++
 			}
-			if prevLen != 0 && len(strconv.Itoa(prevLen)) != dg && (len(r.Input)-prevLen == 1 || prevLen-len(r.Input) == 1) {
+			if prevLen != 0 && len(strconv.Itoa(prevLen)) != dg && (inputLen-prevLen == 1 || prevLen-inputLen == 1) {
 				out.obs["digit_boundary_crossed_by_one_byte"]++
 			}
 		}
-		prevLen = len(r.Input)
-		if len(r.Input) >= 100000 {
+		prevLen = inputLen
+		if inputLen >= 100000 {
 			out.obs["requests_over_100KB"]++
 		}
 		out.tags["op="+opOf(q.Shape)] = true
